@@ -10,6 +10,8 @@ From V Require Import Model.Ast Model.Footnotes Spec.FootnoteSpec.
 From V Require Import Model.FrontMatter Spec.FrontMatterSpec.
 From V Require Import Model.Arena.
 From V Require Import Gen.FeedConst Model.Feed Spec.LineEndings.
+From V Require Import Base.Bytes Base.Res Gen.Tables Model.Escape Spec.EscapeSpec Model.Ast.
+From V Require Import Gen.NodesXml Model.Xml Spec.XmlLex.
 Extraction Language OCaml.
 Set Extraction KeepSingleton.
 
@@ -95,4 +97,11 @@ Extraction "model.ml"
   LineEndings.known_bom_on_bom
   LineEndings.known_above_floor
   FeedConst.ref_budget_floor
+  Xml.xml
+  Xml.xml_escape
+  XmlLex.xml_read
+  XmlLex.tree_to_xtree
+  XmlLex.cells_ok
+  XmlLex.literal_leaves
+  XmlLex.max_tag_indent
 .
